@@ -1354,7 +1354,7 @@ func init() {
 					keys = append(keys, k)
 				}
 				sort.Strings(keys)
-				if len(keys) > 1 && !m.DictOrderOK {
+				if len(keys) > 1 && !m.DictOrderOK && !orderFree(p) {
 					m.Ambiguous = "forall over a dictionary with several entries: order unspecified"
 				}
 				m.es = append(m.es, &frame{kind: fForallDict, dict: a.D, keys: keys, proc: p})
@@ -1391,6 +1391,15 @@ func init() {
 			return nil
 		},
 	}
+}
+
+// orderFree reports whether a forall body carries the generators' marker
+// `/orderfree pop` at its start: such a body leaves the same state in
+// whatever order the entries of a dictionary are handed to it (the generator
+// vouches for that), so the unspecified order does not matter.
+func orderFree(p Obj) bool {
+	el := p.Elems()
+	return len(el) >= 2 && el[0].K == KName && !el[0].X && el[0].S == "orderfree" && el[1].K == KName && el[1].X && el[1].S == "pop"
 }
 
 func (m *Machine) bind(p Obj, seen map[*Store]bool) {
